@@ -19,7 +19,7 @@ PROPERTY = "C12"
 LEVEL = "model_checking"
 RULE = (
     "grammars assgn/null/list/tags/expr (left recursion in the middle of an alternative) x fuzzer class x (min,max)_nonterminals in "
-    "{(0,2),(1,4)} x every open prefix (node ids both fresh and caller-supplied) of every closed tree up to a node bound x every random "
+    "{(0,2),(1,4)} x every open prefix (node ids both fresh and caller-supplied) of every closed tree up to a node bound (rooted in <start> and in every other nonterminal; both encodings of epsilon) x every random "
     "answer sequence (complete for inputs with one open leaf, else <= 3 (thorough 4) deviations from a fixed default answer schedule within a horizon of 16 (24) choice points); "
     "Mutator.mutate on every closed tree x (min,max)_mutations in {(1,1),(2,3)} x <= 2 deviations; a schema is (grammar, component, "
     "setting); non-trivial iff at least two different results were produced"
@@ -45,8 +45,18 @@ BOUND_T = {"assgn": (7, 26), "null": (7, 20), "list": (6, 16), "tags": (5, 30), 
 
 
 def closed(name, tier):
+    """closed trees rooted in <start> AND (smaller ones) in every other nonterminal; for the grammar with
+    epsilon rules both encodings of an epsilon expansion (a '' child, as the fuzzer builds it, and an empty
+    child list, as the parser builds it)"""
     d, n = (BOUND if tier == "quick" else BOUND_T)[name]
-    return closed_trees(canon(GRAMS[name]), "<start>", d, max_nodes=n)
+    cg = canon(GRAMS[name])
+    out = closed_trees(cg, "<start>", d, max_nodes=n)
+    for X in cg:
+        if X != "<start>":
+            out += closed_trees(cg, X, max(2, d - 2), max_nodes=max(6, n // 2))[:: 2 if tier == "quick" else 1]
+    if name == "null":
+        out += [t for t in closed_trees(cg, "<start>", d - 1, max_nodes=n, eps_leaf="empty") if t not in out]
+    return out
 
 
 def opens(name, tier):
@@ -54,7 +64,8 @@ def opens(name, tier):
     for t in closed(name, tier):
         for p, _ in open_prefixes(t, max_open=2, include_root=False):
             seen.setdefault(p, 1)
-    seen.setdefault(("<start>", None), 1)
+    for X in canon(GRAMS[name]):
+        seen.setdefault((X, None), 1)
     return list(seen)
 
 
